@@ -21,7 +21,7 @@ KEYWORDS = {'SELECT', 'FROM', 'WHERE', 'ORDER', 'BY', 'ASC', 'DESC', 'LIMIT', 'A
             'IN', 'INSERT', 'INTO', 'VALUES', 'REPLACE', 'IGNORE', 'UPDATE', 'SET', 'DELETE', 'BEGIN', 'IMMEDIATE',
             'COMMIT', 'ROLLBACK', 'PRAGMA', 'VACUUM', 'CREATE', 'TABLE', 'INDEX', 'UNIQUE', 'IF', 'EXISTS', 'ON',
             'DROP', 'TRIGGER', 'AFTER', 'FOR', 'EACH', 'ROW', 'END', 'DEFAULT', 'PRIMARY', 'KEY', 'EXCLUSIVE',
-            'DEFERRED', 'TRANSACTION', 'BETWEEN'}
+            'DEFERRED', 'TRANSACTION', 'BETWEEN', 'WHEN'}
 
 
 def tokenize(sql):
@@ -397,6 +397,7 @@ class P:
             self.expect_kw('FOR')
             self.expect_kw('EACH')
             self.expect_kw('ROW')
+            when = self.expr() if self.eat_kw('WHEN') else None
             self.expect_kw('BEGIN')
             body = []
             while not self.at_kw('END'):
@@ -414,7 +415,7 @@ class P:
                 self.expect_op(';')
                 body.append(('update', tab, sets, where))
             self.expect_kw('END')
-            return ('create_trigger', name, event, table, body)
+            return ('create_trigger', name, event, table, body, when)
         raise Unsupported(self.sql)
 
 
